@@ -169,6 +169,7 @@ class Interp:
         self._init(env, arrays, strict)
 
     def _init(self, env=None, arrays=None, strict=True):
+        self.decl_types = {}
         self.scopes = [dict(env or {})]
         self.arrays = dict(arrays or {})
         self.strict = strict
@@ -191,10 +192,27 @@ class Interp:
             return self.lazy_arrays[name]
         raise AstError(f"use of undeclared symbol {name}")
 
+    def _convert(self, dtype, v):
+        """C conversion on initialisation / assignment to a scalar of the declared type."""
+        import ffcx.codegeneration.lnodes as L
+
+        if v is None or isinstance(v, (Array, LazyArray)):
+            return v
+        try:
+            if dtype == L.DataType.REAL:
+                return float(v.real) if isinstance(v, complex) else float(v)
+            if dtype == L.DataType.SCALAR:
+                return complex(v) if (self.scalar_complex or isinstance(v, complex)) else float(v)
+            if dtype == L.DataType.INT and not isinstance(v, bool):
+                return int(v) if not isinstance(v, complex) else int(v.real)
+        except (TypeError, ValueError, OverflowError):
+            return v
+        return v
+
     def assign_scalar(self, name, v):
         for s in reversed(self.scopes):
             if name in s:
-                s[name] = v
+                s[name] = self._convert(self.decl_types.get(name), v)
                 return
         raise AstError(f"assignment to undeclared symbol {name}")
 
@@ -349,7 +367,9 @@ class Interp:
         if isinstance(node, L.VariableDecl):
             if node.symbol.name in self.scopes[-1]:
                 raise AstError(f"redeclaration of {node.symbol.name} in the same scope")
-            self.scopes[-1][node.symbol.name] = self.ev(node.value) if node.value is not None else None
+            val = self.ev(node.value) if node.value is not None else None
+            self.decl_types[node.symbol.name] = node.symbol.dtype
+            self.scopes[-1][node.symbol.name] = self._convert(node.symbol.dtype, val)
             return
         if isinstance(node, L.ArrayDecl):
             name = node.symbol.name
